@@ -778,16 +778,14 @@ func (l *Loader) mergeResult(fetchItem *FetchItem, res *result, items []*astjson
 		// In this case we return early to avoid adding subgraph errors or merging this into items.
 		// Multi-entity entry items carry no Fetch (nil) and have no trailing index in their
 		// data path, so the check does not apply to them.
-		if res.multi == nil && isEmptyEntityFetch(fetchItem, response) {
-			return nil
-		}
-
-		// When:
-		// - No errors or data are present
-		// - Status code is not within the 2XX range
-		// We can fall back to a status code based error
+		// A response without errors and with a status code outside the 2XX range is a failed fetch,
+		// whatever it says about entities: fall back to a status code based error.
 		if !hasErrors && ((res.statusCode > 0 && res.statusCode < 200) || res.statusCode >= 300) {
 			return l.renderErrorsStatusFallback(fetchItem, res, res.statusCode)
+		}
+
+		if res.multi == nil && isEmptyEntityFetch(fetchItem, response) {
+			return nil
 		}
 
 		// If we didn't get any data nor errors, we return an error because the response is invalid
@@ -890,7 +888,8 @@ func isEmptyEntityFetch(fetchItem *FetchItem, response *astjson.Value) bool {
 
 	if kind == FetchKindEntity || kind == FetchKindEntityBatch {
 		entitiesData := response.Get("data", "_entities")
-		if astjson.ValueIsNonNull(entitiesData) && entitiesData.Type() == astjson.TypeArray {
+		// the entity that was asked for is null; an array without any element answers nothing
+		if astjson.ValueIsNonNull(entitiesData) && entitiesData.Type() == astjson.TypeArray && len(entitiesData.GetArray()) > 0 {
 			return true
 		}
 	}
